@@ -234,6 +234,25 @@ func c16Overrides(c *Ctx) {
 				if len(bc) != 1 || bc[0].Recv != ee.Base || bc[0].Args[0] != exec || bc[0].Args[1] != res {
 					ok = false
 					c.Fail(c.fn(fn), c.P.FuncPos(fn), fmt.Sprintf("an overriding %s must call BaseExecutor.%s(exec, result) exactly once on every path (otherwise the policy-level listener is lost or doubled)", slot, slot), pathTrace(ev, p))
+				} else {
+					// the base hook runs the user's listener: it must not run while the override holds a lock of the policy (a
+					// listener that asks the breaker for its state or metrics would deadlock, and every other execution waits)
+					held := 0
+					for _, x := range p.Events() {
+						if x.Idx >= bc[0].Idx {
+							break
+						}
+						if isCall(x, "Lock") || isCall(x, "RLock") {
+							held++
+						}
+						if isCall(x, "Unlock") || isCall(x, "RUnlock") {
+							held--
+						}
+					}
+					if held > 0 {
+						ok = false
+						c.Fail(c.fn(fn), c.P.FuncPos(fn), fmt.Sprintf("BaseExecutor.%s (which runs the user's listener) is called while the override holds a lock of the policy", slot), pathTrace(ev, p))
+					}
 				}
 			}
 			if ok && len(ps) > 0 {
